@@ -59,3 +59,20 @@ instances! {
 pub(crate) fn new_map() -> AssetMap {
     AssetMap::new()
 }
+
+// ---- the real AssetCache front-end end-to-end (bounded scenario, thorough tier) -------------------------------------------
+fn s_cache_scenario() {
+    let mut c = AssetCache::without_hot_reloading(Mem::new(O::Good, O::Good, nd(), nd()));
+    let v: u8 = nd();
+    let p1 = c.get_or_insert::<A>("a", A(v)) as *const Handle<A>;
+    let h2 = c.as_any_cache().get_or_insert::<A>("a", A(v.wrapping_add(1)));
+    assert!(h2 as *const Handle<A> == p1 && h2.read().0 == v, "C01/C02 AssetCache and its AnyCache view yield the same handle; get_or_insert never overwrites");
+    assert!(c.contains::<A>("a") && !c.contains::<B>("a") && !c.contains::<A>("b"), "C02 contains is per (id,type)");
+    assert!(!c.as_any_cache().is_hot_reloaded(), "C10 without_hot_reloading builds a cache without reloader");
+    match c.take::<A>("a") { Some(a) => assert!(a.0 == v, "C02 take hands back the stored value"), None => assert!(false, "C02 take of a cached key") }
+    assert!(!c.contains::<A>("a") && !c.remove::<A>("a"), "C02 take removed exactly what it named");
+    std::mem::forget(c);
+}
+instances! {
+    c02_s_cache_scenario => s_cache_scenario();
+}
